@@ -151,7 +151,7 @@ class C35(Spec):
     expected_probes = ('barrier_returns', 'close_calls', 'mpyc_tasks')
 
     def make_case(self, seed, tier):
-        c = _int_case('C35', seed, tier, effects=True, K=2)
+        c = _int_case('C35', seed, tier, effects=True, K=2, m_min=1)     # m = 1 runs are asynchronous too (-M1)
         # make sure barriers occur, and that work is left un-awaited at the end
         rng = random.Random(f'C35b/{seed // 2}')
         stmts = c['prog']['stmts']
@@ -180,7 +180,7 @@ class C36(Spec):
     title = 'a crashed or disconnected party never makes others output wrong values'
     technique = ('deterministic simulation with crash injection: fault-free twin run fixes the execution, one party '
                  'is crash-stopped at a chosen loop iteration of it (mid-frame cuts, FIN/RST/silent), prefix oracle on survivors')
-    quick = {'runs': 1500, 'wall': 75}
+    quick = {'runs': 5000, 'wall': 80}
     thorough = {'runs': 300000, 'wall': 900}
     expected_probes = ('crash_fired', 'crash_midframe', 'survivor_outputs_checked')
     rule = ('one evaluation = fault-free twin run + the same seeded execution with one party crash-stopped at a chosen '
@@ -190,10 +190,26 @@ class C36(Spec):
     SWEEP_BLOCK = 256
     SWEEP_CUTS = (None, 1, 5, 11, 12, 13, 14, 0.5, 0.97)
     SWEEP_HOWS = ('fin', 'rst', 'silent')
+    QUICK_SWEEPS = ((4, 1), (5, 1), (3, 1))
 
     def make_case(self, seed, tier):
         sweep = tier == 'thorough' and seed % 2 == 0
-        if sweep:
+        directed = tier == 'quick' and seed % 1000003 < len(self.QUICK_SWEEPS) * self.SWEEP_BLOCK
+        if directed:
+            # quick tier: the same stratified walk over three fixed multiply-open-multiply programs, with more
+            # parties than 2t+1 (so that survivors can finish an output without the victim)
+            blk, j = divmod(seed % 1000003, self.SWEEP_BLOCK)
+            rng = random.Random(f'C36directed/{blk}')
+            from .world import Config
+            m_, t_ = self.QUICK_SWEEPS[blk]
+            cfg = Config(m=m_, t=t_, no_prss=bool(blk % 2))
+            prog = intfam.gen_fixed(cfg, 16, [('a', 5), ('b', -3)],
+                                    [['input', ['c'], [], {'sender': 1, 'value': 4, 'dummy': 0}],
+                                     ['mul', ['d'], ['a', 'c'], {}], ['await_output', [], ['d'], {'receivers': None}],
+                                     ['mul', ['e'], ['d', 'b'], {}], ['add', ['f'], ['e', 'c'], {}]], ['e', 'f'], sender=0)
+            sweep = True
+            blk = -1 - blk
+        elif sweep:
             # stratified mode: block b fixes a small program and its fault-free execution; the runs of the block walk
             # through (victim, write event) x cut offset x close kind in mixed-radix order, so that every write event
             # of every party of that execution is a crash point of some run once the block is complete
@@ -201,8 +217,9 @@ class C36(Spec):
             rng = random.Random(f'C36sweep/{blk}')
         else:
             rng = random.Random(f'C36/{seed}')
-        cfg = sample_cfg(rng, tier, m_min=2, **({'m_max': 4} if sweep else {}))
-        prog = intfam.gen(rng, cfg, tier, effects=True, size=rng.randint(2, 4) if sweep else rng.randint(2, 7))
+        if not directed:
+            cfg = sample_cfg(rng, tier, m_min=2, **({'m_max': 4} if sweep else {}))
+            prog = intfam.gen(rng, cfg, tier, effects=True, size=rng.randint(2, 4) if sweep else rng.randint(2, 7))
         # several intermediate outputs so that there are outputs to be right or wrong about
         S = [st[1][0] for st in prog['stmts'] if st[1] and st[0] not in ('start_output', 'ucoro', 'input_list',
                                                                          'input_all', 'if_swap_l', 'mklist')]
@@ -238,7 +255,7 @@ class C36(Spec):
         wrote = [e[0] for e in ev if e[1] == victim and e[5] > 0]
         r = rng.random()
         if wrote and r < 0.6:
-            step = rng.choice(wrote) + rng.choice((0, 1, 1, 2))     # right after it wrote frames
+            step = max(1, rng.choice(wrote) + rng.choice((-1, -1, 0, 1, 1, 2)))     # right before / after it wrote frames
         elif r < 0.8:
             step = rng.randint(1, max(1, twin.steps // 4))          # early: handshake / connection set-up
         elif r < 0.9:
@@ -477,6 +494,10 @@ class C16(Spec):
         cfg.t = t
         cfg.no_prss = False
         prog = framesfam.gen(rng, cfg, tier, n_msgs=rng.randint(0, 3), big=False)
+        if rng.random() < 0.25:
+            others = [t2 for t2 in range((m + 1) // 2) if t2 != t]
+            if others:
+                prog['restart_t'] = rng.choice(others)     # second session with another threshold
         deliver = rng.choice(('boundary', 'bytewise', 'chunks', 'lazy', 'eager'))
         return {'family': 'frames', 'cfg': cfg.to_json(), 'prog': prog, 'seed': seed,
                 'strategy': {'deliver': deliver},
